@@ -81,6 +81,15 @@ def gen_history(rng, length, stream="main"):
     for f in (1, 2):
         if rng.random() < 0.5:
             ops.append(["write", f, "Other%d.mo" % f, OTHER_TEXT % (f, G._num(rng), f), 1])
+    import zlib
+    if use_lib and zlib.crc32(ops[0][3].encode()) % 5 < 2:
+        # two source files with the same base name in different directories (the usual `package.mo` situation): a file of
+        # an unrelated class, walked BEFORE the library file and named like it (decided from the text, not from the
+        # PRNG, so that the rest of the history is the one generated before this was added)
+        twin = {"Lib0.mo": "sub/Lib0.mo", "sub/Lib0.mo": "Lib0.mo", "sub/deep/Lib0.mo": "sub/Lib0.mo"}[lib_rel] \
+            if lib_folder == 0 and lib_rel != "Lib0.mo" else ("Lib0.mo" if lib_folder != 0 else None)
+        if twin is not None:
+            ops.append(["write", 0, twin, OTHER_TEXT % (77, "1.5", 77), 1])
     opts = G.gen_options(rng, heavy=0.3)
     mode = "cache"
     ops.append(["options", dict(opts)])
